@@ -773,6 +773,13 @@ func sequence(c *drv.Ctx, bin string, seed int64, idx, nreq int) error {
 			continue
 		}
 		resp, err := rq.do()
+		if err == drv.ErrWatchdog {
+			// the request did not return within the wall-clock watchdog: not a verdict on this property; the goroutine
+			// dump is kept next to the replays, the rest of this sequence is abandoned
+			p := c.SaveText(fmt.Sprintf("watchdog-seq%d-step%d.txt", idx, i), fmt.Sprintf("request: %s\ntrace:\n%s\n\n%s", rq.desc, strings.Join(wd.trace, "\n"), w.Stderr()))
+			c.Inconclusive(fmt.Sprintf("sequence %d step %d: %q outlived the watchdog (goroutine dump: %s)", idx, i, rq.desc, p))
+			return nil
+		}
 		if err != nil {
 			return fmt.Errorf("request %q: %v; stderr: %s", rq.desc, err, drv.FatalInStderr(w.Stderr()))
 		}
